@@ -15,10 +15,16 @@ for f in files:
     for r in e["coverage"].get("per_obligation", []):
         n = r["ob"]
         if r["verdict"].startswith("undecided:timeout"):
+            if "--keep-min" in sys.argv and isinstance(costs.get(n), float) and costs[n] <= 150:
+                continue  # decided in a quick run before: a timeout under heavier load does not un-decide it
             costs[n] = "undecided" if "--mark-undecided" in sys.argv else 999.0
         elif r["verdict"].startswith("undecided:uf-table-overflow"):
             costs[n] = "undecided"   # the uninterpreted-function tables of lib/uf.rs are too small for this body
         elif r.get("time_s") is not None and r["verdict"] in ("discharged", "canary-refuted", "known-finding"):
-            costs[n] = round(float(r["time_s"]), 1)
+            new = round(float(r["time_s"]), 1)
+            old = costs.get(n)
+            # --keep-min (merging a THOROUGH run, which loads the machine more): never raise a recorded cost, so a
+            # quick-tier obligation is not pushed over the deferral threshold by a measurement under heavier load
+            costs[n] = min(old, new) if ("--keep-min" in sys.argv and isinstance(old, float)) else new
 json.dump(costs, open(p, "w"), indent=0, sort_keys=True)
 print(len(costs), "entries;", sum(1 for v in costs.values() if isinstance(v, float) and v > 150), "over 150 s;", sum(1 for v in costs.values() if v == "undecided"), "undecided")
